@@ -158,6 +158,7 @@ CHECKS = {
     'C06': sys_property('C06', also_loop=True),
     'C08': sys_property('C08'),
     'C10': sys_property('C10'),
+    'C16': sys_property('C16'),
     'C17': sys_property('C17'),
     'C12': sys_property('C12'),
     'C14': sys_property('C14'),
